@@ -271,6 +271,7 @@ def run_history(case):
         if final_exc is not None:
             expect(ARMED[0] is False and "injected" in str(final_exc), "exc:OSError@release", error=repr(final_exc)[:200])
         for h in HANDLES:
+            expect(h._f.mode == want_mode, "mismatch:reopened_with_another_access_mode", got=h._f.mode, want=want_mode)
             expect(h.closed, "mismatch:handle_leaked_after_release", inode=h.ino, end=end, n=len(HANDLES))
             expect(h.close_calls >= 1, "mismatch:handle_never_closed")
     finally:
